@@ -1,6 +1,7 @@
 import Tickit.Proof.WinExpose
 import Tickit.Proof.WinFlush
 import Tickit.Proof.WinHanded
+import Tickit.Proof.RectSetInv
 import Tickit.Gen.Win
 /-
   C02 — A window's drawing is confined to the cells it owns, in its own coordinates.
@@ -122,6 +123,16 @@ theorem handed_rects_disjoint (beh : Id → Rect → List DrawOp) (st st' : St) 
       · exact hdis
       · exact List.Pairwise.nil
     exact (handedRects_disjoint (rendered t) (t.wins.size + 1) _ hnd w _ hpw).1
+
+/-- The same with the invariant of the rectangle set as C05 proves it (`RectSet.Inv`: kept by every `add`, `subtract`,
+    `translate`, `clear`, hence by every window operation, all of which change the damage set only through those):
+    the disjointness hypothesis is discharged. -/
+theorem handed_rects_disjoint_of_inv (beh : Id → Rect → List DrawOp) (st st' : St) (t : Tree) (shots : List Shot)
+    (h : flushRender beh st t = .ok (st', shots))
+    (hinv : RectSet.Inv t.root.damage)
+    (hnd : (visitIds st'.tree (st'.tree.wins.size + 1) 0).Nodup) :
+    ∀ w, ((shots.map Shot.ev).filter (fun e => e.1 = w)).Pairwise (fun a b => Rect.Disjoint a.2 b.2) :=
+  handed_rects_disjoint beh st st' t shots h hinv.2.1 hnd
 
 /-- Non-vacuity: in the example tree no window occurs twice and the damage set is a single rectangle. -/
 example : (match exampleState with
